@@ -901,6 +901,11 @@ var invalidSuffix = []string{
 // every item is tried (alone and embedded) once per check run instead of being drawn.
 func (e rfEngine) Preflight(st *Stats) (*Violation, interface{}) {
 	valid := "var a0=1;function g0(x){return x+1}\nif(a0){g0(2)}\nvar z0=2;"
+	if preflightPart == 1 {
+		return e.preflightZoo(st, valid)
+	} else if preflightPart != 0 {
+		return nil, nil
+	}
 	for _, bad := range invalidAnywhere {
 		for _, text := range []string{bad, bad + "\n", valid + "\n" + bad + "\nvar after=1;\n", bad + "\n" + valid} {
 			c := &RFCase{Engine: "readerfault", Seed: 1, Text: text, Kind: "invalid", Invalid: true}
@@ -917,6 +922,11 @@ func (e rfEngine) Preflight(st *Stats) (*Violation, interface{}) {
 			}
 		}
 	}
+	st.Probe("invalid_corpus_enumerated")
+	return nil, nil
+}
+
+func (e rfEngine) preflightZoo(st *Stats, valid string) (*Violation, interface{}) {
 	for i, z := range syntaxZoo {
 		for _, text := range []string{z, valid + ";" + z, z + "\n" + valid} {
 			c := &RFCase{Engine: "readerfault", Seed: uint64(i + 1), Text: text}
